@@ -346,6 +346,9 @@ def run_impl(spec):
     t = poll.run_scenario(spec)
     mon, hidden = poll_monitor(t["events"])
     hist = dict(t["hist"])
+    if t.get("survivors"):
+        mon.append({"signature": "c02:job-alive-after-stop", "what": f"real LocalBackend: the worker processes of trials {t['survivors']} were still "
+                    "alive after the backend had stopped / paused them (they go on writing reports)", "detail": None})
     if spec.get("ctor", {}).get("coarse_clock", 1) > 1:
         # worker time stamps shared by consecutive reports: the model's stamps are an emission counter, so these cases are
         # judged by the monitor alone (per trial and run: delivered = gap-free prefix of reported, each once, in order)
